@@ -34,6 +34,7 @@ type Program struct {
 	Overlay  map[string][]byte // the overlay the program was loaded with (nil = the tree as written)
 
 	cg      *CallGraph
+	wiring  map[wireKey][]types.Type
 	fnFacts map[*ssa.Function]*FuncFacts
 	named   []*types.Named // named types declared in Elys packages
 	summ    map[string]map[*ssa.Function]bool
